@@ -216,8 +216,8 @@ type c42Presented struct {
 type c42Consumer struct {
 	name      string
 	presented []c42Presented // every Delivery in arrival order (re-presentations included)
-	pending   *Delivery     // the latest Delivery not yet confirmed by the application
-	confirmed []string      // message ids in application-confirm order
+	pending   *Delivery      // the latest Delivery not yet confirmed by the application
+	confirmed []string       // message ids in application-confirm order
 	errs      []string
 	// illegal re-presentations, detected when the Delivery arrives (the application knows what it
 	// has confirmed at that moment)
